@@ -39,7 +39,15 @@ class TreeSpec:
     assumptions: tuple = ()
     # labels that must reach a floor over the whole run when expressible: {label: min_fraction}
     floors: dict | None = None
-    max_cases_for_hash: int = 10**9
+    reset: Callable | None = None  # called before each class (clears per-class state of the check)
+    tagged_boost: int = 4  # classes that (transitively) have tagged fields get this many times the examples
+
+
+NOTES: Counter = Counter()  # side channel: checks call note(key, n); drained per class
+
+
+def note(key: str, n: int = 1) -> None:
+    NOTES[key] += n
 
 
 def _settings(n: int) -> settings:
@@ -67,6 +75,9 @@ def run_one_class(spec: TreeSpec, cd: D.ClassDesc, seed: int, n: int) -> Report:
     extra_strat = spec.extra(cd) if spec.extra else st.none()
     strat = st.tuples(tree_strategy(cd, spec.profile), extra_strat)
     raw_failures: dict[str, tuple] = {}
+    NOTES.clear()
+    if spec.reset is not None:
+        spec.reset()
 
     def on_case(tree, extra):
         rep.evaluations += 1
@@ -91,6 +102,8 @@ def run_one_class(spec: TreeSpec, cd: D.ClassDesc, seed: int, n: int) -> Report:
 
     test()
     rep.labels["classes"] += 1
+    if NOTES:
+        rep.extra["counters"] = dict(NOTES)
     for sig, (_size, tree, extra, msg) in raw_failures.items():
         def still(t, sig=sig, extra=extra):
             try:
@@ -145,6 +158,10 @@ def _worker(task) -> Report:
     return rep
 
 
+def _has_tagged(cd: D.ClassDesc) -> bool:
+    return any(f.tag is not None or (f.struct is not None and _has_tagged(f.struct)) for f in cd.fields)
+
+
 def select_classes(ctx: Ctx, spec: TreeSpec) -> list[D.ClassDesc]:
     if ctx.quick:
         classes = D.quick_class_sample(ctx.seed, spec.quick_extra_classes)
@@ -159,7 +176,10 @@ def select_classes(ctx: Ctx, spec: TreeSpec) -> list[D.ClassDesc]:
 def run_tree_property(ctx: Ctx, modname: str, spec: TreeSpec) -> Report:
     cds = select_classes(ctx, spec)
     n = spec.quick_examples if ctx.quick else spec.thorough_examples
-    tasks = [(modname, cd.path, ctx.subseed(cd.path), n) for cd in cds]
+    tasks = [
+        (modname, cd.path, ctx.subseed(cd.path), n * (spec.tagged_boost if _has_tagged(cd) else 1))
+        for cd in cds
+    ]
     # biggest classes first for better load balance
     total = Report(prop=spec.prop, level=spec.level, rule=spec.rule)
     total.assumptions = list(spec.assumptions)
